@@ -11,9 +11,6 @@ Definition disc (g : Q) (t k : nat) : Q := if (t <=? k)%nat then qpow g (k - t) 
 Definition ret_sum (g : Q) (rk : nat -> Q) (T t : nat) : Q :=
   Qsum (map (fun k => disc g t k * rk k) (seq 0 T)).
 
-Lemma valid2 : forall a b i j, (i < a)%nat -> (j < b)%nat -> valid [a; b] [i; j].
-Proof. intros. repeat constructor; assumption. Qed.
-
 Lemma get_disc_triu : forall g T i j, (i < T)%nat -> (j < T)%nat -> get (disc_triu g T) [i; j] = disc g i j.
 Proof. intros. unfold disc_triu. rewrite get_tabulate by now apply valid2. reflexivity. Qed.
 
